@@ -529,16 +529,12 @@ func (b *BaseStore) Load(ctx context.Context, amount int) error {
 	progress := make(chan ifacelog.IPFSLogEntry)
 	defer close(progress)
 	go func() {
-		for {
-			var entry ifacelog.IPFSLogEntry
-			select {
-			case <-ctx.Done():
-				return
-			case entry = <-progress:
-				if entry == nil {
-					// should not happen
-					return
-				}
+		// drain until the channel is closed: the fetcher sends without looking
+		// at the context, so leaving early would block it (and Load) for ever
+		for entry := range progress {
+			if entry == nil {
+				// should not happen
+				continue
 			}
 
 			b.recalculateReplicationStatus(entry.GetClock().GetTime())
